@@ -1,6 +1,8 @@
 /-
 C01 (bytes, layout tables decoded) — non-vacuity of `C01_file_roundtrip_layout` and
 `C01_file_roundtrip_cff_layout`: the example fonts with C08's example GSUB table lie in the domains.
+Guards that do not look at the GSUB bytes are reused from Props/C01FileEx.lean / C01FileCffEx.lean
+(the derived head / OS/2 / name values coincide: `lex_*_eq`); the file-size guard is recomputed.
 -/
 import SfntV.Props.C01FileLayout
 import SfntV.Props.C01FileEx
@@ -11,20 +13,133 @@ open SfntV SfntV.Font SfntV.FontFile SfntV.Otl
 
 /-- the bytes are what C08's encoder writes for its example `Info` -/
 theorem exG_encode : InfoA.Info.encode InfoA.gsubCodec InfoA.exG = .ok exGsubBytes := by
-  sorry
+  unfold InfoA.Info.encode
+  have : InfoA.exG.scripts = [] := rfl
+  rw [this, InfoA.sl_nil]
+  have hF : FL.encode InfoA.exG.features = .ok [0, 1, 108, 105, 103, 97, 0, 8, 0, 0, 0, 3, 0, 0, 0, 1, 0, 2] := by decide
+  rw [hF]
+  have hL : LL.encode (InfoA.exG.lookups.map (InfoA.toLL InfoA.gsubCodec)) = .ok (wordsToBytes
+      [3, 8, 50, 84, 1, 0, 2, 10, 24, 1, 6, 10, 1, 2, 5, 6, 2, 10, 2, 20, 21, 1, 2, 7, 9, 4, 16, 1, 10, 2, 1, 18, 1, 8,
+       1, 4, 90, 2, 31, 1, 1, 30, 5, 0, 1, 8, 3, 2, 1, 14, 22, 0, 1, 1, 2, 3, 4, 1, 1, 7]) := by decide
+  rw [hL]
+  decide
 
-theorem C01_file_example_layout_in_domain : InDomainFileL exEnvF exFileFontL := by
-  sorry
+theorem lex_head_eq : headInfoOf exFileFontL = headInfoOf exFileFont := by decide +kernel
+theorem lex_os2_eq : os2InfoOf exFileFontL = os2InfoOf exFileFont := by decide +kernel
+theorem lex_nameEntries : nameEntries (deriveName exEnvF.env (metaOf exFileFontL)) = exNameEntries := by
+  decide +kernel
+
+theorem lex_headc_eq : headInfoOfCff exCffFontL = headInfoOfCff exCffFont := by decide +kernel
+theorem lex_os2c_eq : os2InfoOfCff exCffFontL = os2InfoOfCff exCffFont := by decide +kernel
+theorem lex_nameEntriesC : nameEntries (deriveName exEnvF.env (metaOfCff exCffFontL)) = exNameEntries := by
+  decide +kernel
+theorem lex_cffInfo : exCffFontL.payload.info = deriveCff (metaOfCff exCffFontL) := by decide +kernel
+
+
+theorem lex_nameEncode :
+    Names.nameEncode (nameEntries (deriveName exEnvF.env (metaOf exFileFontL))) 1 =
+      Names.encodeBytes
+        (Names.nameBuild (Names.sortLangs Gen.appleBCP) (Names.sortLangs Gen.msBCP)
+          (nameEntries (deriveName exEnvF.env (metaOf exFileFontL))) 1).2
+        (Names.nameBuild (Names.sortLangs Gen.appleBCP) (Names.sortLangs Gen.msBCP)
+          (nameEntries (deriveName exEnvF.env (metaOf exFileFontL))) 1).1.data := by
+  unfold Names.nameEncode
+  rw [Names.nameEncodeWith_eq, List.mergeSort_of_pairwise (by decide +kernel)]
+
+theorem lex_size : ∀ ts, writeTables exEnvF exFileFontL = .ok ts → Header.fileSize (Header.named ts) < 4294967296 := by
+  have : (match writeTables exEnvF exFileFontL with | .ok ts => Header.fileSize (Header.named ts) | _ => 0) < 4294967296 := by
+    unfold writeTables
+    simp only []
+    rw [lex_nameEncode]
+    decide +kernel
+  intro ts h; rw [h] at this; exact this
+
+theorem lex_ne : exGsubBytes ≠ [] := by unfold exGsubBytes; exact List.cons_ne_nil _ _
+
+theorem lex_layout : LayoutOk none (some exGsubBytes) none where
+  gdef := by intro b h; cases h
+  gsub := by intro b h; cases h; exact ⟨InfoA.exG, InfoA.exG_ok, exG_encode⟩
+  gpos := by intro b h; cases h
+
+theorem C01_file_example_layout_in_domain : InDomainFileL exEnvF exFileFontL where
+  core :=
+    { glyphs := ex_glyphs
+      count := ex_count
+      widthsLen := ex_widthsLen
+      widthsRange := ex_widthsRange
+      extents := ex_extents
+      maxp := ex_maxp
+      head := by rw [lex_head_eq]; exact ex_head
+      ctime := ex_ctime
+      mtime := ex_mtime
+      os2 := by rw [lex_os2_eq]; exact ex_os2
+      ascent := ex_ascent
+      descent := ex_descent
+      lineGap := ex_lineGap
+      caret := ex_caret
+      name := lex_nameEntries ▸ ex_name
+      cmap := ex_cmap
+      names := ex_names
+      namesLen := ex_namesLen
+      gdef := by intro b h; cases h
+      gsub := by intro b h; cases h; exact ⟨lex_ne, rfl⟩
+      gpos := by intro b h; cases h
+      version := ex_version
+      sideTags := ex_sideTags
+      sideNodup := ex_sideNodup
+      sideCount := ex_sideCount
+      size := lex_size }
+  layout := lex_layout
 
 theorem C01_file_example_layout : ∃ b, writeFile exEnvF exFileFontL = .ok b ∧
     readFile layoutDec (fun _ _ => 0) b = .ok (nfFile exFileFontL) :=
   C01_file_roundtrip_layout exEnvF (fun _ _ => 0) exFileFontL C01_file_example_layout_in_domain
 
-theorem C01_file_example_cff_layout_in_domain : InDomainFileCffL exDecCffL exEnvF exCffFontL := by
-  sorry
+theorem lex_nameEncodeC :
+    Names.nameEncode (nameEntries (deriveName exEnvF.env (metaOfCff exCffFontL))) 1 =
+      Names.encodeBytes
+        (Names.nameBuild (Names.sortLangs Gen.appleBCP) (Names.sortLangs Gen.msBCP)
+          (nameEntries (deriveName exEnvF.env (metaOfCff exCffFontL))) 1).2
+        (Names.nameBuild (Names.sortLangs Gen.appleBCP) (Names.sortLangs Gen.msBCP)
+          (nameEntries (deriveName exEnvF.env (metaOfCff exCffFontL))) 1).1.data := by
+  unfold Names.nameEncode
+  rw [Names.nameEncodeWith_eq, List.mergeSort_of_pairwise (by decide +kernel)]
+
+theorem lex_sizeC : ∀ ts, writeTablesCff exEnvF exCffFontL = .ok ts → Header.fileSize (Header.named ts) < 4294967296 := by
+  have : (match writeTablesCff exEnvF exCffFontL with | .ok ts => Header.fileSize (Header.named ts) | _ => 0) < 4294967296 := by
+    unfold writeTablesCff
+    simp only []
+    rw [lex_nameEncodeC]
+    decide +kernel
+  intro ts h; rw [h] at this; exact this
+
+theorem C01_file_example_cff_layout_in_domain : InDomainFileCffL exDecCffL exEnvF exCffFontL where
+  core :=
+    { cff := ⟨by decide, if_pos rfl⟩
+      cffInfo := lex_cffInfo
+      count := cffex_count
+      extentsLen := cffex_extentsLen
+      extents := cffex_extents
+      head := by rw [lex_headc_eq]; exact cffex_head
+      ctime := cffex_ctime
+      mtime := cffex_mtime
+      os2 := by rw [lex_os2c_eq]; exact cffex_os2
+      ascent := cffex_ascent
+      descent := cffex_descent
+      lineGap := cffex_lineGap
+      caret := cffex_caret
+      name := lex_nameEntriesC ▸ ex_name
+      cmap := cffex_cmap
+      gdef := by intro b h; cases h
+      gsub := by intro b h; cases h; exact ⟨lex_ne, rfl⟩
+      gpos := by intro b h; cases h
+      version := cffex_version
+      size := lex_sizeC }
+  layout := lex_layout
 
 theorem C01_file_example_cff_layout : ∃ b, writeFileCff exEnvF exCffFontL = .ok b ∧
     readFileCff layoutDec exDecCffL (fun _ _ => 0) b = .ok (nfFileCff exCffFontL) :=
   C01_file_roundtrip_cff_layout exDecCffL exEnvF (fun _ _ => 0) exCffFontL C01_file_example_cff_layout_in_domain
+
 
 end SfntV.Props.C01
